@@ -93,6 +93,8 @@ pub fn run(tier: Tier) -> Run {
     let mut run = Run::new("C02", tier, "exploration");
     let mut work: Vec<(Vec<Inst>, Shape)> = universe::all_shapes(tier).into_iter().map(|s| (vec![], s)).collect();
     work.extend(universe::scale_shapes(tier).into_iter().map(|s| (vec![], s)));
+    // typed literals under id relabellings and behind function boundaries (conforming ones only)
+    work.extend(crate::checks::c03::context_variants().into_iter().filter(|(_, s)| !s.id.contains(":type14:")));
     let ctx = type_context();
     for (pre, s) in context_shapes() {
         // only conforming ones: the literal width the type demands (type 14 = 128 bit is not expressible)
